@@ -42,13 +42,14 @@ def build(tier):
         bounds={
             "scripts": f"real aioftp.Client sessions over SimNet: {[f.__name__ for i, f in enumerate(L.SCRIPTS) if i in scripts]} (listing, upload, download, directory operations, stat + append at an offset + PASV/EPSV)",
             "cut": f"at event-loop iteration k after the client started, k symbolic over the whole run of each script (measured on the current tree: {dict((L.SCRIPTS[i].__name__, iters[i] + 6) for i in scripts)} iterations): "
-                   "every client transport vanishes, or Server.close() is called; with and without a restricted data-port pool" + (" (quick: with pool)" if q else ""),
+                   "every client transport vanishes, or Server.close() is called, or only the control connection is reset while a command is still unread (ctrl_reset); with and without a restricted data-port pool" + (" (quick: with pool)" if q else ""),
         },
         outside=["two or more sessions cut at the same instant", "TLS shutdown", "real file descriptors (the ledger is the simulated network's and the spy backend's)", "cut points inside a single callback (atomic in asyncio)"],
         explanation=(
-            "The real Server (start, dispatcher incl. its finally block, passive listeners, workers, close) serves the real Client over the simulated network; at a SYMBOLIC loop iteration either the peer vanishes "
-            "or the server is closed. CrossHair/z3 enumerate the cut points and certify that none in the bound is skipped. After the loop has gone quiet: no server-side transport open, no passive listener "
-            "left, no backend file open, connection table empty, port pool complete, connection slots returned; Server.close() completes and leaves no task, socket or listener behind."
+            "The real Server (start, dispatcher incl. its finally block, passive listeners, workers, close) serves the real Client over the simulated network; at a SYMBOLIC loop iteration the peer vanishes, "
+            "the server is closed, or the control connection alone is reset. CrossHair/z3 enumerate the cut points and certify that none in the bound is skipped. After the loop has gone quiet: no server-side transport open, no passive listener "
+            "left, no backend file open, connection table empty, port pool complete, connection slots returned; Server.close() completes and, AT THE INSTANT IT RETURNS, no task of the server is left running and no server-side transport is open "
+            "(ledger taken in the same loop iteration), and nothing appears later."
         ),
         assumptions=BASE_ASSUMPTIONS + ["SimNet: TCP semantics; start_server yields before and after binding and leaks the listener when cancelled after binding (as loop.create_server does)"],
         extra={"stubs": STUBS + ["SimNet in-memory network with a ledger of transports and listeners", "SpyPathIO ledger of open files", "cut injected from VLoop.on_iteration"]},
